@@ -2,6 +2,12 @@ package props
 
 import (
 	"fmt"
+	"github.com/pip-services3-gox/pip-services3-expressions-gox/calculator"
+	"github.com/pip-services3-gox/pip-services3-expressions-gox/calculator/functions"
+	"github.com/pip-services3-gox/pip-services3-expressions-gox/calculator/variables"
+	"github.com/pip-services3-gox/pip-services3-expressions-gox/mustache"
+	mtok "github.com/pip-services3-gox/pip-services3-expressions-gox/mustache/tokenizers"
+	"github.com/pip-services3-gox/pip-services3-expressions-gox/variants"
 	"strings"
 	"testing"
 
@@ -221,7 +227,8 @@ func checkC12Err(c c12ErrCase) *evid.Fail {
 			}
 		}
 	}
-	if tree != nil || failAt >= len(c.Toks) {
+	accepted := tree != nil
+	if !accepted && failAt >= len(c.Toks) {
 		return nil
 	}
 	var sb strings.Builder
@@ -239,6 +246,9 @@ func checkC12Err(c c12ErrCase) *evid.Fail {
 		sb.WriteString(t.S)
 	}
 	src := sb.String()
+	if accepted {
+		return checkC12Runtime(c, src, offsets)
+	}
 	p := cparsers.NewExpressionParser()
 	var err error
 	if g := guard(func() { err = p.ParseString(src) }); g != nil {
@@ -256,6 +266,61 @@ func checkC12Err(c c12ErrCase) *evid.Fail {
 		return evid.F("error-position", "input %q: the error %q quotes %s:%s, the offending token #%d %q stands at %d:%d", src, err.Error(), m[1], m[2], failAt, c.Toks[failAt].S, want[0], want[1])
 	}
 	return nil
+}
+
+// checkC12Runtime: an accepted expression evaluated without its variables / without its (single) function fails with
+// an error that names the missing identifier; the position it quotes is that identifier's token.
+func checkC12Runtime(c c12ErrCase, src string, offsets []int) *evid.Fail {
+	firstVar, calls, theCall := -1, 0, -1
+	for i, t := range c.Toks {
+		if t.K != "i" {
+			continue
+		}
+		if i+1 < len(c.Toks) && c.Toks[i+1].S == "(" {
+			calls++
+			theCall = i
+		} else if firstVar < 0 {
+			firstVar = i
+		}
+	}
+	coords := refCoords([]rune(src))
+	check := func(what string, err error, at int) *evid.Fail {
+		if err == nil || at < 0 || !strings.Contains(err.Error(), what) || !strings.Contains(err.Error(), "was not found") {
+			return nil
+		}
+		m := errPosRe.FindStringSubmatch(err.Error())
+		if m == nil {
+			return nil
+		}
+		want := coords[offsets[at]+1]
+		if m[1] != fmt.Sprint(want[0]) || m[2] != fmt.Sprint(want[1]) {
+			return evid.F("error-position:not-found", "input %q: the error %q quotes %s:%s, the identifier %q stands at %d:%d", src, err.Error(), m[1], m[2], c.Toks[at].S, want[0], want[1])
+		}
+		return nil
+	}
+	var res *evid.Fail
+	if g := guard(func() {
+		calc := calculator.NewExpressionCalculator()
+		calc.SetAutoVariables(false)
+		if calc.SetExpression(src) != nil {
+			return
+		}
+		_, err := calc.EvaluateUsingVariables(variables.NewVariableCollection())
+		if res = check("Variable ", err, firstVar); res != nil || calls != 1 {
+			return
+		}
+		vc := variables.NewVariableCollection()
+		for _, t := range c.Toks {
+			if t.K == "i" && vc.FindByName(identName(t.S)) == nil {
+				vc.Add(variables.NewVariable(identName(t.S), variants.VariantFromInteger(1)))
+			}
+		}
+		_, err = calc.EvaluateUsingVariablesAndFunctions(vc, functions.NewFunctionCollection())
+		res = check("Function ", err, theCall)
+	}); g != nil {
+		return g
+	}
+	return res
 }
 
 func init() { regReplay("C12.err", checkC12Err) }
@@ -291,4 +356,78 @@ func TestC12_RapidErrorPositions(t *testing.T) {
 			rt.Fatalf("%v", f)
 		}
 	})
+}
+
+// ---- positions quoted in template syntax errors point at a token of the template -------------------------------
+
+type c12TmplErrCase struct {
+	Template string `json:"template"`
+}
+
+func checkC12TmplErr(c c12TmplErrCase) *evid.Fail {
+	src := strings.Trim(c.Template, " \t\r\n") // the parser trims the template before it tokenizes it
+	if src == "" {
+		return nil
+	}
+	var err error
+	var starts map[[2]int]bool
+	if g := guard(func() {
+		err = mustache.NewMustacheTemplate().SetTemplate(c.Template)
+		if err == nil {
+			return
+		}
+		t := mtok.NewMustacheTokenizer()
+		starts = map[[2]int]bool{}
+		for _, tk := range t.TokenizeBuffer(src) {
+			starts[[2]int{tk.Line(), tk.Column()}] = true
+		}
+	}); g != nil {
+		return g
+	}
+	if err == nil {
+		return nil
+	}
+	m := errPosRe.FindStringSubmatch(err.Error())
+	if m == nil {
+		return nil
+	}
+	var line, col int
+	fmt.Sscan(m[1], &line)
+	fmt.Sscan(m[2], &col)
+	if !starts[[2]int{line, col}] {
+		return evid.F("error-position:template", "template %q: the error %q quotes %d:%d, where no token of the template starts", c.Template, err.Error(), line, col)
+	}
+	return nil
+}
+
+func init() { regReplay("C12.tmplerr", checkC12TmplErr) }
+
+func TestC12_RapidTemplateErrorPositions(t *testing.T) {
+	rec := evid.New("C12", "TestC12_RapidTemplateErrorPositions", "C12.tmplerr", "generated templates written over several lines with 1-2 tag-level mutations; when SetTemplate rejects one and the error quotes a position, a token of the template (as the Mustache tokenizer cuts it, which C12's main check verifies) must start exactly there; non-trivial = the template was rejected with a position on a line other than the first; distinct by template")
+	defer finish(t, rec)
+	runRapid(t, pick(15000, 120000), 121212, func(rt *rapid.T) {
+		budget := rapid.SampledFrom([]int{3, 5, 8, 12}).Draw(rt, "budget")
+		tree := fixEdges(genNodes(rt, rapid.IntRange(1, 4).Draw(rt, "depth"), &budget))
+		var sb strings.Builder
+		sb.WriteString(strings.Repeat("a line of text\n", rapid.IntRange(0, 6).Draw(rt, "lead")))
+		sb.WriteString(strings.Repeat(" ", rapid.IntRange(0, 9).Draw(rt, "indent")))
+		mPrint(tree, &sb)
+		src := c10Damage(rt, sb.String())
+		if rapid.Bool().Draw(rt, "breaks") {
+			src = strings.ReplaceAll(src, "}} ", "}}\n ")
+		}
+		c := c12TmplErrCase{src}
+		err := mustache.NewMustacheTemplate().SetTemplate(src)
+		nt := false
+		if err != nil {
+			if m := errPosRe.FindStringSubmatch(err.Error()); m != nil && m[1] != "1" {
+				nt = true
+			}
+		}
+		rec.Case(src, nt, func() interface{} { return c }, fmt.Sprintf("rejected:%v", err != nil))
+		if f := checkC12TmplErr(c); f != nil && rec.Fail(f, c) {
+			rt.Fatalf("%v", f)
+		}
+	})
+	requireLabels(t, rec, "rejected:true")
 }
